@@ -51,7 +51,6 @@ theorem readN_exact (d rest : Bytes) : readN d.length (d ++ rest) = some (d, res
   | cons x xs =>
     rw [if_neg (by simp), if_neg (by simp)]
     rw [take_append_len _ _ _ rfl, drop_append_len _ _ _ rfl]
-    simp
 
 theorem readCStr_cstr (d s rest : Bytes) (h : cstrBytes d = some s) : readCStr (s ++ rest) = some (d, rest) := by
   unfold cstrBytes at h
